@@ -3,6 +3,7 @@ package util
 import (
 	"errors"
 	"fmt"
+	"github.com/markusressel/fan2go/internal/simhook"
 	"github.com/markusressel/fan2go/internal/ui"
 	"github.com/natefinch/atomic"
 	"os"
@@ -50,6 +51,10 @@ func CheckFilePermissionsForExecution(filePath string) (bool, error) {
 }
 
 func ReadIntFromFile(path string) (value int, err error) {
+	if hookErr := simhook.BeforeRead(path); hookErr != nil {
+		return -1, hookErr
+	}
+	defer func() { simhook.AfterRead(path, value, err) }()
 	data, err := os.ReadFile(path)
 	if err != nil {
 		return -1, err
@@ -71,7 +76,11 @@ func WriteIntToFile(value int, path string) error {
 	}
 	valueAsString := fmt.Sprintf("%d", value)
 
+	if hookErr := simhook.BeforeWrite(path, value); hookErr != nil {
+		return hookErr
+	}
 	err = os.WriteFile(path, []byte(valueAsString), 0644)
+	simhook.AfterWrite(path, value, err)
 	return err
 }
 
@@ -86,6 +95,10 @@ func WriteIntToFileAtomic(value int, path string) error {
 	}
 	valueAsString := fmt.Sprintf("%d", value)
 	valueReader := strings.NewReader(valueAsString)
+	if hookErr := simhook.BeforeWrite(path, value); hookErr != nil {
+		return hookErr
+	}
+	defer func() { simhook.AfterWrite(path, value, nil) }()
 	return atomic.WriteFile(path, valueReader)
 }
 
